@@ -183,7 +183,18 @@ def planar_body(sx, S):
     sx.assume(symx.And(*[o > 0 for o in orient]))
     shoelace = sum(S.Q[F[i]][0] * S.Q[F[(i + 1) % n]][1] - S.Q[F[(i + 1) % n]][0] * S.Q[F[i]][1] for i in range(n)) / 2
     Ar = A.face_area(S.mesh, persistent=False)
-    sx.check_eq(Ar[0], shoelace, "area of a planar polygon (star-shaped about its barycentre) is its shoelace area", tol=1e-9)
+    kind = "%d-gon" % n
+    if n == 4:
+        # quads are measured by averaging their two triangulations, which is exact for convex quads only: the non-convex
+        # (arrowhead) case is a recorded finding and gets its own label
+        tri = []
+        for i in range(n):
+            for j in range(i + 1, n):
+                for k in range(j + 1, n):
+                    a, b, c = S.Q[F[i]], S.Q[F[j]], S.Q[F[k]]
+                    tri.append((b[0] - a[0]) * (c[1] - a[1]) - (b[1] - a[1]) * (c[0] - a[0]) > 0)
+        kind = "convex quad" if bool(symx.And(*tri)) else "non-convex quad"
+    sx.check_eq(Ar[0], shoelace, "area of a planar polygon (star-shaped about its barycentre) is its shoelace area [%s]" % kind, tol=1e-9)
 
 
 def angles_body(sx, S):
@@ -340,6 +351,10 @@ def cotan_body(sx, S):
 
 def circum_body(sx, S):
     from mouette import attributes as A
+    for F in S.F:
+        a, b, c = (S.Q[i] for i in F)
+        n = cross(sub(b, a), sub(c, a))
+        sx.assume(dot(n, n) > 1)       # (intersect_2lines2D treats |det| < 1e-12 as parallel lines)
     cc = A.face_circumcenter(S.mesh, persistent=False)
     for f, F in enumerate(S.F):
         a, b, c = (S.Q[i] for i in F)
